@@ -24,11 +24,20 @@ def pegEffectsOn (m : PegMsg) (feeTo : Option Nat) (bb ba : BalView) (sb sa : Su
   keys.all (fun k => ba k.1 k.2 + debit m k.1 k.2 == bb k.1 k.2 + credit m feeTo k.1 k.2) &&
   denoms.all (fun d => sa d + (if d = m.symbol then m.amount.toNat else 0) == sb d)
 
+/-- A successful lock / burn was payable, judged from the message and the balances BEFORE it: the stated fee is not
+    negative and the amount positive (so that "sender − amount − fee, fee holder + fee" cannot hide a withdrawal from the fee
+    holder), the sender held at least the amount of the token, and — unless the sender is the fee holder itself — at least
+    the fee in ceth on top (amount + fee when the token is ceth). -/
+def payable (m : PegMsg) (feeTo : Option Nat) (bb : BalView) : Bool :=
+  decide (0 ≤ m.ceth) && decide (0 < m.amount) && decide (m.amount.toNat ≤ bb m.sender m.symbol) &&
+  (feeAcct feeTo == m.sender ||
+    decide (m.ceth.toNat + (if m.symbol = cethSymbol then m.amount.toNat else 0) ≤ bb m.sender cethSymbol))
+
 /-- one lock/burn message observed from outside: on success the effects above and exactly one event carrying
     the message's values; on failure nothing moves and no event -/
 def pegStep (kind : String) (ok : Bool) (m : PegMsg) (feeTo : Option Nat) (bb ba : BalView) (sb sa : SupView)
     (keys : List (Nat × String)) (denoms : List String) (events : List Event) : Bool :=
-  if ok then pegEffectsOn m feeTo bb ba sb sa keys denoms && events == [pegEvent kind m]
+  if ok then payable m feeTo bb && pegEffectsOn m feeTo bb ba sb sa keys denoms && events == [pegEvent kind m]
   else sameOn bb ba sb sa keys denoms && events == []
 
 /-- the same 20-byte Ethereum address, however spelled -/
